@@ -109,7 +109,10 @@ CHECKS = {
             "representations with the end points of all d-step walks; tied to dsw by the correspondence check on random arc "
             "subsets and illegal single-arc matrices.",
             "Coq proof + extraction-based correspondence", "5 C14"),
-    "C17": ("PARTIAL.  Theorems on the binary64 model (Coq primitive floats): every eigenvalue estimate is <= 4 (capacity <= 2; via "
+    "C17": ("PARTIAL.  REGENERATED: approximate_capacity is translated from the current source on every run (MiniPyC deep embedding with "
+            "binary64 floats; NumPy's random stream is a parameter, log2 and 10**t are external functions) and proved equal to the "
+            "model float for float: C17_returns_source, C17_arcless_source, C17_le_four_source, C17_regular_source.  "
+            "Theorems on the binary64 model (Coq primitive floats): every eigenvalue estimate is <= 4 (capacity <= 2; via "
             "Flocq and the standard library's FloatAxioms), arc-less graphs give 0, graphs in which every live vertex has exactly "
             "d live successors give exactly d in the single-start mode; integer Collatz-Wielandt theorems turn per-graph "
             "certificates into brackets on the walk-growth rate for every n.  The model is compared BIT-FOR-BIT with NumPy "
